@@ -24,10 +24,9 @@ fn chunks<'a, E>(it: impl Iterator<Item = Result<&'a [u8], E>>) -> Result<String
     Ok(format!("[{}]", v.join(",")))
 }
 
-pub fn run(w: &[&str]) -> String {
-    let input = match w.get(1).and_then(|h| unhex(h)) { Some(b) => b, None => return "bad-op".into() };
-    let mut d = Decoder::new(&input);
-    let r: Result<String, minicbor::decode::Error> = match w[0] {
+/// one accessor call on an existing decoder.
+pub fn call<'b>(d: &mut Decoder<'b>, name: &str) -> Option<Result<String, minicbor::decode::Error>> {
+    Some(match name {
         "bool" => d.bool().map(|x| (x as u8).to_string()),
         "u8" => d.u8().map(|x| x.to_string()),
         "u16" => d.u16().map(|x| x.to_string()),
@@ -54,10 +53,48 @@ pub fn run(w: &[&str]) -> String {
         "simple" => d.simple().map(|x| x.to_string()),
         "datatype" => d.datatype().map(tyname),
         "skip" => d.skip().map(|_| "()".into()),
-        _ => return "bad-op".into()
-    };
+        _ => return None
+    })
+}
+
+pub fn run(w: &[&str]) -> String {
+    let input = match w.get(1).and_then(|h| unhex(h)) { Some(b) => b, None => return "bad-op".into() };
+    let mut d = Decoder::new(&input);
+    let r = match call(&mut d, w[0]) { Some(r) => r, None => return "bad-op".into() };
     match r {
         Ok(v) => format!("ok {} {}", v, d.position()),
         Err(e) => format!("err {} {}", dclass(&e), d.position())
     }
+}
+
+/// `seq <hex> <call> <call> …`: a short sequence of calls on ONE decoder; a call is an accessor
+/// name, `setpos:<n>` or `probe:<accessor>`.  Result: the per-call results joined by `;`.
+pub fn run_seq(w: &[&str]) -> String {
+    let input = match w.first().and_then(|h| unhex(h)) { Some(b) => b, None => return "bad-op".into() };
+    let mut d = Decoder::new(&input);
+    let mut out = Vec::new();
+    for c in &w[1..] {
+        if let Some(n) = c.strip_prefix("setpos:") {
+            match n.parse::<usize>() { Ok(n) => d.set_position(n), Err(_) => return "bad-op".into() }
+            out.push(format!("pos {}", d.position()));
+            continue
+        }
+        if let Some(a) = c.strip_prefix("probe:") {
+            let mut p = d.probe();
+            let r = match call(&mut p, a) { Some(r) => r, None => return "bad-op".into() };
+            let pp = p.position();
+            drop(p);
+            out.push(match r {
+                Ok(v) => format!("ok {} {} {}", v, pp, d.position()),
+                Err(e) => format!("err {} {} {}", dclass(&e), pp, d.position())
+            });
+            continue
+        }
+        let r = match call(&mut d, c) { Some(r) => r, None => return "bad-op".into() };
+        out.push(match r {
+            Ok(v) => format!("ok {} {}", v, d.position()),
+            Err(e) => format!("err {} {}", dclass(&e), d.position())
+        });
+    }
+    out.join(";")
 }
